@@ -77,6 +77,9 @@ var c11Keys = []hdrVariant{
 	{[]string{"!!!!not-base64!!!!"}, false, false},
 	{[]string{"  " + c11Key16 + "  "}, true, false},
 	{[]string{""}, false, false},
+	// decodes to the same 16 bytes but is not the canonical encoding (unused bits of
+	// the last character set): valid, and the answer is computed from the text sent
+	{[]string{c11Key16[:21] + "h=="}, true, false},
 }
 
 type subVariant struct {
@@ -259,7 +262,7 @@ func runC11(r *Run) {
 		vm, vv, vc, vu, vw, vk := mi, vi, ci, ui, wi, ki
 		mi, vi = 0, 0
 		ci, ui, wi = ci%6, ui%5, 0
-		ki = []int{0, 6}[ki%2]
+		ki = []int{0, 6, 8}[ki%3]
 		if b >= 12 {
 			switch t.Draw(6) {
 			case 0:
